@@ -209,10 +209,11 @@ def fault_oracle(res, sw):
         def keyed(ops):
             d = {}; cnt = {}
             for o in ops:
-                if o.outname: k = (o.name, o.outname)
-                elif "name" in o.kv: k = (o.name, o.kv["name"], o.kv.get("idx"))
+                # the variables (handles) an op works on are part of its identity: the same name may be looked up through two handles
+                if o.outname: k = (o.name, o.outname, o.vars)
+                elif "name" in o.kv: k = (o.name, o.kv["name"], o.kv.get("idx"), o.vars)
                 else:
-                    cnt[o.name] = cnt.get(o.name, 0) + 1; k = (o.name, cnt[o.name])
+                    cnt[(o.name, o.vars)] = cnt.get((o.name, o.vars), 0) + 1; k = (o.name, cnt[(o.name, o.vars)], o.vars)
                 d.setdefault(k, o)
             return d
         clean = keyed(sw.clean[i].ops)
